@@ -94,6 +94,12 @@ class PersistentRemoteWorker(PersistentWorker, RemoteWorker):
                     self._results_pipe.child_end.put((counter, False, None, self.id))
                     last_partial_result_signalled = True
                 break
+            except Exception:
+                # a message that cannot be rebuilt on this side (e.g. an exception whose class needs
+                # constructor arguments): report an error without details and end the stream of results
+                logger.exception('A message received from the child could not be rebuilt')
+                self._result = (False, None)
+                break
 
             if len(result) > 2:
                 remote_counter, valid, value, wid = result
